@@ -107,6 +107,8 @@ CASES = {
     "example-empty": (lambda: example_request("empty"), ["dense"], "plain"),
     "spaced-lists": (lambda: dict(example_request("primordial"), cooling=["CIC_HI", "RC_HII"]), ["dense"], "spaced"),
     "extra-species+modifiers": (lambda: dict(example_request("minimal"), allowed=["H", "C2", "C", "CH", "H2", "C2H"], extra=["H2", "C2H"], rate_modifier={4894: "1.5e-10*zeta"}, ode_modifier={"H": {"factors": ["2.0"], "reactants": [["C", "CH"]]}}), ["dense"], "plain"),
+    # extra (required) species without any allowed-species restriction: the empty allowed list means "no restriction"
+    "extra-species-only": (lambda: base_request(files=["ice.naunet"], formats=["naunet"], elements=["H", "C", "O"], pseudo_elements=["CR"], grain_model="hh93", extra=["O2", "CH", "#O2"], _ice=True), ["dense"], "plain"),
     # a network file without reaction indices (numbered 0, 1, ... in joining order) with a modifier on reaction 0
     "unindexed-krome-modifier-0": (lambda: base_request(files=["u.krome"], formats=["krome"], elements=["H", "C"], pseudo_elements=[], rate_modifier={0: "1.25e-10", 2: "3.5e-11*Tgas"},
                                                         _files={"u.krome": "@format:R,R,P,P,Tmin,Tmax,rate\nC,C,C2,,NONE,NONE,2.5d-10*T32\nC,H,CH,,NONE,NONE,1d-17\nCH,H,C,H2,10,1d4,1.1d-10*T32**0.5\n"}), ["dense"], "plain"),
